@@ -73,8 +73,10 @@ class Doc:
         self.n_statements = 0
 
 
-WORDS = ["alpha", "Beta", "GAMMA", "x", "Mars", "orbit", "a1", "N_2", "km", "Z9"]
-PVL_WORDS = WORDS + ["a.b", "ns:id", "x-y", "v1.2", "a_", "B:2"]
+WORDS = ["alpha", "Beta", "GAMMA", "x", "Mars", "orbit", "a1", "N_2", "km", "Z9",
+         # (pieces of the keywords: words, not keywords)
+         "n", "l", "nul", "ull", "tru", "fals", "e", "en", "nd", "obj", "grou"]
+PVL_WORDS = WORDS + ["a.b", "ns:id", "x-y", "v1.2", "a_", "B:2", "v-", "item-"]
 NAMES_PVL = ["a", "key", "Name", "LONG_NAME", "x1", "a.b", "ns:id", "^ptr", "k-2"]
 NAMES_ODL = ["a", "key", "Name", "LONG_NAME", "x1", "ns:id", "^ptr", "K2"]
 
@@ -257,8 +259,13 @@ def sv_quoted(rng, reader):
     elif r < 0.94:
         kw = rng.choice(("END", "end", "End;", "END_GROUP", "GROUP = x", "# c"))
         content, cls = f"{w()}\n{kw}\n{w()}", "quoted:keyword-on-own-line"
-    else:
+    elif r < 0.985:
         content, cls = f"{w()}-\n   {w()}", "quoted:dash-continuation"
+    else:
+        # many dash continuations in one string
+        content = w() + "".join(rng.choice(("-\n", "-\n   ", "-\r\n  ")) + w()
+                                for _ in range(rng.randint(9, 14)))
+        cls = "quoted:many-dash-continuations"
     expected = fold(content) if reader in ODL_FAMILY_READ else content
     return q + content + q, expected, cls, True
 
@@ -608,10 +615,12 @@ def plain_layout(tokens):
     seps = [""]
     for a, b in zip(tokens, tokens[1:]):
         if a.kind == SEMI or (b.stmt != a.stmt and b.kind != SEMI):
-            seps.append("\n")
+            # (a dash directly before a line break is a continuation to the
+            # ISIS and default readers: keep a blank between them)
+            seps.append(" \n" if a.text.endswith("-") else "\n")
         else:
             seps.append(" ")
-    seps.append("\n")
+    seps.append(" \n" if tokens and tokens[-1].text.endswith("-") else "\n")
     return seps
 
 
